@@ -161,4 +161,14 @@ CLAIMED['C16'] = (
     'DESIGN.md 3/C16',
 )
 
+CLAIMED['C17'] = (
+    'formula normal form: the straight-line body of each helper is translated to a sympy expression (comparisons as indicator atoms) and compared with the textbook formula; Maclaurin polynomial by sympy series; code/expression sibling check (ast + sympy as normaliser)',
+    'Decides the closed forms that are written in the source: normal, lognormal, uniform, triangular densities, logistic cdf and the regression log density equal the textbook '
+    'expressions in sympy normal form; the constants sqrt(2 pi) and (1/2)ln(2 pi) are right to the printed precision; Box-Cox is (x^l-1)/l with its degree-3 Maclaurin polynomial on a '
+    'symmetric switch; piecewise variables are the clipped segment lengths, the formula pairs beta_i with segment i and the plain function measures the first segment from the first '
+    'threshold; generated segmentation code mirrors the generated expression; the nested-logit correlation is 1 - mu^2/mu_m^2 inside nests only. Not decided: numeric integration to one '
+    '(follows from the closed form), numeric agreement of piecewise_function beyond the structural clause.',
+    'DESIGN.md 3/C17',
+)
+
 NOT_APPLICABLE = {f'C{i:02d}': WIP for i in range(1, 20)}
